@@ -51,8 +51,12 @@ def class_spec(draw, idx, prev):
     # single inheritance, optionally through a second ancestor: root(unslotted|slotted) <- mid(unslotted|slotted) <- class
     base = draw(st.sampled_from([None, None, "unslotted", "slotted", "hand", "unslotted>unslotted", "unslotted>slotted",
                                  "slotted>slotted", "slotted>unslotted", "hand>unslotted"]))
-    nf = draw(st.integers(0, 5 if base is None else 3))
-    names = FIELD_NAMES[:nf] if base is None else FIELD_NAMES[2:2 + nf]
+    # the dataclass base declares a, b and sometimes c; its name is unique or shared by all classes of the program
+    # (two different bases called `Base` in one module, each slotted on its own terms)
+    base_extra = bool(base) and base != "hand" and draw(st.integers(0, 2)) == 0
+    nb = 0 if base is None else (3 if base_extra else 2)
+    nf = draw(st.integers(0, 5 if base is None else 5 - nb))
+    names = FIELD_NAMES[nb:nb + nf]
     first_default = draw(st.integers(0, nf))
     base_has_default = base is not None and base != "hand" and draw(st.booleans())
     fields = []
@@ -78,6 +82,11 @@ def class_spec(draw, idx, prev):
         "poison_before": draw(st.sampled_from([False, False, False, True])),
         # the plain dataclass is used (an instance copied) before `slotted` is applied to it in function form
         "preuse": draw(st.sampled_from([False, False, True])),
+        "base_extra": base_extra,
+        "base_shared_name": draw(st.booleans()),
+        "base_dict": draw(st.sampled_from([False, False, True])),
+        # the class is declared in the body of another class: its qualified name differs from its name
+        "nested": draw(st.sampled_from([False, False, True])),
     }
 
 
@@ -134,20 +143,22 @@ def emit(specs, slotted: bool) -> str:
             parent = ""
             for lvl, kind in enumerate(chain):
                 last = lvl == len(chain) - 1
-                cname = f"Base{i}" if last else f"Root{i}"
+                cname = ("Base" if s.get("base_shared_name") else f"Base{i}") if last else f"Root{i}"
                 if kind == "hand":
                     out.append(f"class {cname}:\n    __slots__ = ()\n    def hello(self):\n        return 'hi'\n")
                     parent = f"({cname})"
                     continue
-                bdeco = "@classes.slotted(dict=False, weakref=False)\n" if (slotted and kind == "slotted") else ""
+                bdeco = f"@classes.slotted(dict={bool(s.get('base_dict')) and last}, weakref=False)\n" if (slotted and kind == "slotted") else ""
                 if last:
                     bd = " = 1" if s["base_has_default"] else ""
                     body = f"    a: int{bd}\n    b: str{' = ' + repr('bb') if s['base_has_default'] else ''}\n"
+                    if s.get("base_extra"):
+                        body += f"    c: int{' = 3' if s['base_has_default'] else ''}\n"
                 else:
                     body = "    pass\n"
                 out.append(f"{bdeco}@dataclasses.dataclass({_flags(s)})\nclass {cname}{parent}:\n{body}")
                 parent = f"({cname})"
-            base_expr = f"(Base{i})"
+            base_expr = "(Base)" if s.get("base_shared_name") else f"(Base{i})"
         if s["poison_before"] and slotted:
             # a decoration that is expected to fail: not a dataclass
             out.append(f"try:\n    @classes.slotted(dict={s['dict']}, weakref={s['weakref']})\n    class {s['name']}:\n        x: int = 0\nexcept Exception as e:\n    ERRORS.append(('poison', {i}, type(e).__name__))\n")
@@ -178,21 +189,30 @@ def emit(specs, slotted: bool) -> str:
                 cls_src += f"{s['name']} = {fn}({s['name']})\n"
         else:
             cls_src = f"{deco}@dataclasses.dataclass({_flags(s)})\nclass {s['name']}{base_expr}:\n" + "\n".join(body) + "\n"
+        got = s["name"]
+        if s.get("nested"):
+            cls_src = f"class Outer{i}:\n" + "\n".join("    " + ln for ln in cls_src.splitlines()) + "\n"
+            got = f"Outer{i}.{s['name']}"
         out.append("try:\n" + "\n".join("    " + ln for ln in cls_src.splitlines()) +
-                   f"\n    CLASSES.append(({i}, {s['name']}))\nexcept Exception as e:\n    ERRORS.append(('decorate', {i}, type(e).__name__ + ': ' + str(e)))\n")
+                   f"\n    CLASSES.append(({i}, {got}))\nexcept Exception as e:\n    ERRORS.append(('decorate', {i}, type(e).__name__ + ': ' + str(e)))\n")
     return "\n".join(out)
 
 
+def _base_fields(s):
+    if not (s["base"] and s["base"] != "hand"):
+        return []
+    return ["a", "b", "c"] if s.get("base_extra") else ["a", "b"]
+
+
 def _all_fields(s):
-    base = ["a", "b"] if (s["base"] and s["base"] != "hand") else []
-    return base + [n for n, _, _ in s["fields"]]
+    return _base_fields(s) + [n for n, _, _ in s["fields"]]
 
 
 def _args(s, variant):
     """constructor arguments for all fields (base first)."""
     vals = []
     if s["base"] and s["base"] != "hand":
-        vals += [10 + variant, f"s{variant}"]
+        vals += [10 + variant, f"s{variant}"] + ([30 + variant] if s.get("base_extra") else [])
     for n, typ, d in s["fields"]:
         vals.append({"int": 100 + variant, "str": f"v{variant}", "list": [variant, [variant]]}[typ])
     return vals
@@ -201,7 +221,7 @@ def _args(s, variant):
 def _required(s):
     vals = []
     if s["base"] and s["base"] != "hand" and not s["base_has_default"]:
-        vals += [1, "x"]
+        vals += [1, "x"] + ([2] if s.get("base_extra") else [])
     for n, typ, d in s["fields"]:
         if d is None and not s["base_has_default"]:
             vals.append({"int": 5, "str": "r", "list": [1]}[typ])
@@ -315,7 +335,11 @@ def check_program(specs, col, tag):
                 continue
             Co, Cs = co[i], cs[i]
             col.ev()
-            bound = getattr(o, s["name"], None) is Co and getattr(s_, s["name"], None) is Cs
+            if s.get("nested"):
+                bound = getattr(getattr(o, f"Outer{i}", None), s["name"], None) is Co and getattr(getattr(s_, f"Outer{i}", None), s["name"], None) is Cs
+                col.label("nested-class")
+            else:
+                bound = getattr(o, s["name"], None) is Co and getattr(s_, s["name"], None) is Cs
             col.label(f"pickle-compared={bound}")
             ro, rs = observe(Co, s, bound), observe(Cs, s, bound)
             for key in ro:
